@@ -645,6 +645,21 @@ func (w *World) intrinsic(t *Thread, f *Frame, fnv FuncV, args []Val, c *ssa.Cal
 		}
 	case "strings.Contains":
 		return w.strContains(args[0], args[1]), false
+	case "bytes.Equal":
+		x, xok := args[0].(BytesV)
+		y, yok := args[1].(BytesV)
+		if !xok || !yok {
+			panic(engErr("bytes.Equal on non-record bytes"))
+		}
+		isEmpty := func(r *Rec) bool { return r == nil || r.empty }
+		switch {
+		case x.r == y.r, isEmpty(x.r) && isEmpty(y.r):
+			return true, false
+		case isEmpty(x.r) != isEmpty(y.r) && (x.r == nil || x.r.empty || x.r.mk) && (y.r == nil || y.r.empty || y.r.mk):
+			return false, false // a marshalled payload is never empty
+		}
+		// two different abstract values: equality of their bytes is a free Boolean (both outcomes explored)
+		return symB(w.fresh("bytes_eq", "Bool")), false
 	case "strings.Map":
 		src, ok := args[1].(string)
 		if !ok {
